@@ -410,3 +410,30 @@ func TestC01_AtomInBigDoc(t *testing.T) {
 	}
 	col("C01").Completed("TestC01_AtomInBigDoc")
 }
+
+// TestC01_Rollover: valid and invalid strings (escaped quotes, backslash runs, stray quotes) placed where stage 1 hands
+// over from one index buffer to the next: a verdict must not depend on state lost at that hand-over, in either direction.
+func TestC01_Rollover(t *testing.T) {
+	idx := 0
+	srcs := []string{`"ab\"cd"`, `"ab\\"`, `"ab\" , "x"`, `"ab\\" , "`, `"\\\"q"`, `"plain"`, `"a\nb"`, `"\\\\\\"`, `"x\"`, `"unterminated`}
+	for _, tok := range []string{"0,", "[],"} {
+		per := structuralsOf(tok)
+		base := 1408 / per
+		for dk := -12; dk <= 12; dk++ {
+			for pad := 0; pad < 64; pad++ {
+				if !thorough() && (pad+dk)%3 != 0 {
+					continue
+				}
+				for si, s := range srcs {
+					idx++
+					if idx%envNShards != envShard {
+						continue
+					}
+					in := "[" + strings.Repeat(tok, base+dk) + strings.Repeat(" ", pad) + s + `,"` + strings.Repeat("t", 70+si) + `",1,2,3]`
+					c01Eval(t, []byte(in), "gen:index-buffer-rollover")
+				}
+			}
+		}
+	}
+	col("C01").Completed("TestC01_Rollover")
+}
